@@ -86,6 +86,10 @@ package p2c
 //@ func (*p2cPickerBuilder).Build
 //@   prop C14
 //@   opaque NewErrPicker, NewAtomicDuration
+// the picker's connection list lives in storage allocated by this Build (never in storage shared with an earlier
+// picker, which a later Build would overwrite)
+//@   loop 1 invariant len(conns) == 0 && cap(conns) == 0 || fresh(conns)
+//@   ensures [own-storage] len(info.ReadySCs) != 0 ==> len(local(conns)) == 0 && cap(local(conns)) == 0 || fresh(local(conns))
 //@   loop 1 iteration-ensures [one-subconn-per-ready-connection] len(conns) == at_head(len(conns)) + 1 && conns[at_head(len(conns))] != nil && conns[at_head(len(conns))].conn == conn && conns[at_head(len(conns))].success == 1000 && conns[at_head(len(conns))].inflight == 0 && conns[at_head(len(conns))].requests == 0 && fresh(conns[at_head(len(conns))])
 //@   ensures [none-ready] len(info.ReadySCs) == 0 ==> calls(base.NewErrPicker, balancer.ErrNoSubConnAvailable) == 1 && result == ret(NewErrPicker)
 //@   ensures [picker-over-them] len(info.ReadySCs) != 0 ==> typeis(result, ptr(p2cPicker)) && unbox(result, ptr(p2cPicker)).conns == local(conns)
